@@ -598,6 +598,20 @@ class C20Session(Session):
                         t.update(scale=op.get("value", 3))
                 out = self._guard(edit)
                 self.probe("trace_edited_in_place")
+        elif k == "style_copy_edit":
+            # obj.style.copy() is an independent style: changing the copy (leaves, traces) must not reach obj
+            i = op["o"] % len(w.objs)
+
+            def run():
+                s2 = w.objs[i].style.copy()
+                s2.update(**{leaf: own(v, leaf) for leaf, v in op["items"]})
+                for t in s2.model3d.data:
+                    t.show = not t.show
+                    t.kwargs["name"] = "edited-on-the-copy"
+                s2.model3d.add_trace(backend="generic", constructor="Scatter3d", kwargs={"x": [0, 1], "y": [0, 1],
+                                                                                           "z": [0, 1]})
+            out = self._guard(run)
+            self.probe("style_copy_edited")
         elif k == "style_reset":
             import magpylib as magpy
 
@@ -671,6 +685,11 @@ class C20Session(Session):
 
             objs = [o for o in w.objs if o._parent is None][:3]
             kw = {"style_" + leaf: own(v, leaf) for leaf, v in op.get("items", [])}
+            sd = keep_sd = None
+            if op.get("style_dict") and op.get("items"):
+                sd = nest_items(op["items"])  # show(..., style={...}): the caller's dictionary
+                keep_sd = copy.deepcopy(sd)
+                kw = {"style": sd}
             tr = None
             if op.get("boom"):
                 _BOOM["calls"] = 0
@@ -681,6 +700,8 @@ class C20Session(Session):
             finally:
                 if tr is not None:
                     objs[0].style.model3d.data.pop()
+            if sd is not None and sd != keep_sd:
+                raise Violation("caller_dict_mutated", "show(style={...}) changed the caller's dict", op="show")
             self.probe("real_show_call" + ("_updatefunc_raises" if op.get("boom") and out != "ok" else ""))
             if op.get("boom") and out != "ok":
                 self.fault_fired("updatefunc_raise")
@@ -906,6 +927,13 @@ class Sim:
                 op = {"op": "add_trace", "o": rng.randrange(n), "x": rng.randint(1, 5)}
             op["probe_kw"] = self._probe_kw(rng, cfg, sess)
             return op
+        if rng.random() < 0.04:
+            o = rng.randrange(n)
+            items = self._items(rng, cfg, self._leaves(M.S[o]))
+            items = [it for it in items if not sm.is_alias(it[0])]
+            op = {"op": "style_copy_edit", "o": o, "items": items}
+            op["probe_kw"] = self._probe_kw(rng, cfg, sess)
+            return op
         meshes = [i for i, o in enumerate(w.objs) if type(o).__name__ == "TriangularMesh"]
         if meshes and n <= 10 and rng.random() < 0.08:
             op = {"op": "to_tricoll", "o": rng.choice(meshes)}
@@ -979,7 +1007,7 @@ class Sim:
         elif kind == "show":
             leaf = rng.choice(["opacity", "path_line_width", "color"])
             op = {"op": "show", "items": [[leaf, rng.choice(sm.VALID[sm.kind_of(leaf)])]] if rng.random() < 0.7 else [],
-                  "boom": rng.random() < 0.3}
+                  "boom": rng.random() < 0.3, "style_dict": rng.random() < 0.4}
         else:
             raise HarnessError(kind)
         op["probe_kw"] = self._probe_kw(rng, cfg, sess)
